@@ -729,6 +729,35 @@ def gen(srcdir):
     sets = re.findall(r'(\w+)\s*:\s*config\.(\w+)', frm)
     need(sets and re.search(r'\.\.Default::default\(\)', frm), 'server.rs RequestConfig -> TransformConfig')
     emit('Definition server_config_sets : list (string * string) := [' + '; '.join('(%s, %s)' % (cq(a), cq(b)) for a, b in sets) + '].')
+    # ---- C08: transform.rs write_root_svg constants, elements without an extent of their own
+    wr = body_after(tf, r'fn write_root_svg', what='transform.rs write_root_svg')
+    dfa = re.findall(r'if !orig_svg_attrs\.contains_key\(' + STR + r'\)\s*\{\s*new_svg_attrs\.insert\(' + STR + r',\s*' + STR + r'\);', wr)
+    need(len(dfa) >= 1 and all(a == b for a, b, _ in dfa), 'write_root_svg default attributes (version, xmlns)')
+    emit('Definition root_default_attrs : list (string * string) := [' + '; '.join('(%s, %s)' % (cq(a), cq(unesc(c))) for a, _, c in dfa) + '].')
+    un = re.findall(r'format!\("\{\}([^"{}]*)",\s*(width|height)\)', wr)
+    need(len(un) == 2 and un[0][0] == un[1][0] and {un[0][1], un[1][1]} == {'width', 'height'}, 'write_root_svg default unit')
+    emit('Definition root_default_unit : string := %s.' % cq(un[0][0]))
+    vb = re.search(r'format!\(' + STR + r',\s*fstr\(x1\),\s*fstr\(y1\),\s*view_width,\s*view_height\)', wr)
+    need(vb and vb.group(1).count('{}') == 4, 'write_root_svg viewBox format')
+    emit('Definition root_viewbox_seps : list string := %s.' % cql(unesc(vb.group(1)).split('{}')))
+    rk = re.findall(r'new_svg_attrs\.insert\(\s*' + STR, wr)
+    need(len(rk) >= 7, 'write_root_svg inserted keys')
+    emit('Definition root_inserted_keys : list string := %s.' % cql(rk))
+    ctn = body_after(tf, r'impl EventGen for Container', what='EventGen for Container')
+    m = re.search(r'if ((?:self\.0\.name == "[A-Za-z]+"\s*(?:\|\|)?\s*)+)\{\s*bbox = None;', ctn)
+    need(m, 'Container elements whose content has no extent (defs, symbol)')
+    emit('Definition container_no_bbox : list string := %s.' % cql(strs(m.group(1))))
+    m = re.search(r'if matches!\(\s*self\.0\.name\.as_str\(\),\s*((?:"[A-Za-z]+"\s*\|?\s*)+)\)\s*\{\s*bbox = None;', ctn)
+    emit('Definition container_unrendered : list string := %s.' % cql(strs(m.group(1)) if m else []))
+    m = re.search(r'if self\.0\.name == ' + STR + r'\s*\{\s*bb = None;', oe)
+    need(m, 'OtherElement element without an extent (point)')
+    emit('Definition leaf_no_bbox : list string := %s.' % cql([m.group(1)]))
+    ge2 = re.search(r'\(\s*"clipPath"\s*,\s*Some\(clip_bbox\)\s*\)', ge)
+    need(ge2, 'EventGen for SvgElement clip-path step')
+    gr = body_after(tf, r'impl EventGen for GroupElement', what='EventGen for GroupElement')
+    m = re.search(r'let result_bb = if self\.0\.name == ' + STR + r'\s*\{\s*None', gr)
+    need(m, 'GroupElement element without an extent (symbol)')
+    emit('Definition group_no_bbox : list string := %s.' % cql([m.group(1)]))
     return '\n'.join(out) + '\n'
 
 def main():
